@@ -357,7 +357,7 @@ def qm_scenario(kind):
     s.vars["units"] = u
     ip.assume(z3.And(u >= 1, u <= 64))
     tune, layer_indexes = "none", None
-    if kind in ("dense", "indexes", "indexes_b", "filters"):
+    if kind in ("dense", "indexes", "indexes_b", "filters", "filters_block", "filters_layer_exc"):
       layers = [_mk_layer("InputLayer", "in0"),
                 _mk_layer("Dense", "dense_a", use_bias=True, activation="relu", units=SNum(u), wshape=(7, 5)),
                 _mk_layer("Activation", "act_1", activation="relu"),
@@ -373,8 +373,8 @@ def qm_scenario(kind):
         # the standalone Activation (2) and the class-limited BatchNormalization (5) are NOT selected: the branches of
         # quantize_model that never consult the kernel-quantizer dictionary must honour layer_indexes too (seed c20-6)
         layer_indexes = [1, 3, 6]
-      if kind == "filters":
-        tune = "layer"
+      if kind.startswith("filters"):
+        tune = "block" if kind == "filters_block" else "layer"
         limit = {"Dense": [1, 4, 1], "Conv2D": [1, 4, 1], "Activation": [1]}   # single admissible quantizers: only the filter choices fork
     elif kind == "seq_class":
       # class limits: no pattern group, every tensor of every layer is its own tuner choice
@@ -390,7 +390,9 @@ def qm_scenario(kind):
                 _mk_layer("SeparableConv2D", "sep_2", use_bias=False, activation="linear", filters=4, wshape=(3, 3, 2, 1))]
       limit = {"^sep_1$": [1, 4, 1], "^sep_2$": [8, 8, 6], "SeparableConv2D": [8, 8, 8]}
     model = Obj(ExtClass("Model"), {"layers": layers})
-    exc = Obj(ExtClass("Pattern"), {"search": Builtin("search", lambda ip_, name: None)})
+    # tune_filters_exceptions: in the *_exc / block kinds the output layer dense_c is excepted from filter tuning
+    excepted = {"dense_c"} if kind in ("filters_block", "filters_layer_exc") else set()
+    exc = Obj(ExtClass("Pattern"), {"search": Builtin("search", lambda ip_, name: (Obj(ExtClass("Match"), {}) if name in excepted else None))})
     hm = Obj(cls, {"limit": limit, "groups": {}, "quantization_config": QM_CONFIG, "model": model, "custom_objects": {},
                    "tune_filters": tune, "tune_filters_exceptions": exc, "layer_indexes": layer_indexes,
                    "activation_bits": 4, "transfer_weights": False})
@@ -475,19 +477,27 @@ def qm_scenario(kind):
     # registered layers that are selected and limited ARE quantized (their kernel choice is never None here)
     s.claim("limited_selected_quantized", all(l.attrs["name"] in qd for l in sel if l.cls.name in REG))
     # architecture: units / filters are those of the reference (no filter tuning) or the tuner's factor applied
-    if kind == "filters":
+    if kind.startswith("filters"):
       fac = {}
       for c_ in hp.calls:
         if c_[1].startswith("network_filters_"):
           fac[c_[1][len("network_filters_"):]] = c_
-      s.claim("filter_choices_per_layer", set(fac) == {"dense_a", "conv_b", "dense_c"} and
-              all(list(c_[2]) == [0.5, 0.75, 1.0, 1.5, 2.0] for c_ in fac.values()))
       picked = hp.picked
+      if kind == "filters_block":
+        # ONE choice for the whole network; excepted layers keep the reference width (seed c20-8)
+        blk = [c_ for c_ in hp.calls if c_[1] == "network_filters"]
+        s.claim("one_block_choice", not fac and len(blk) >= 1 and all(list(c_[2]) == [0.5, 0.75, 1.0, 1.5, 2.0] for c_ in blk))
+      else:
+        s.claim("filter_choices_per_layer", set(fac) == {"dense_a", "conv_b", "dense_c"} - excepted and
+                all(list(c_[2]) == [0.5, 0.75, 1.0, 1.5, 2.0] for c_ in fac.values()))
       goals = []
       for lname, attr, ref in (("dense_a", "units", z3.ToReal(u)), ("conv_b", "filters", z3.ToReal(u)),
                                ("dense_c", "units", z3.RealVal(10))):
-        f = picked.get("network_filters_" + lname)
+        f = picked.get("network_filters" if kind == "filters_block" else "network_filters_" + lname)
         lay = [l for l in layers if l.attrs["name"] == lname][0]
+        if lname in excepted:
+          goals.append(Q.num_value(lay.attrs[attr]) == ref)
+          continue
         if f is None:
           goals.append(z3.BoolVal(False))
           continue
@@ -636,7 +646,7 @@ def cases(tier):
     for head in ("kernel_quantizer", "bias_quantizer", "activation"):
       out.append(Case(PROP, AQ + "._get_quantizer", "%s_%s" % (lk, head), limit_scenario(lk, head), bounds=bounds,
                       replay_kind=None, assumptions=ASSUME))
-  for kind in ("dense", "indexes", "indexes_b", "filters", "seq", "seq_class", "sep"):
+  for kind in ("dense", "indexes", "indexes_b", "filters", "filters_block", "filters_layer_exc", "seq", "seq_class", "sep"):
     out.append(Case(PROP, AQ + ".quantize_model", kind, qm_scenario(kind), bounds=bounds, replay_kind="c20_qm",
                     assumptions=ASSUME + ["clone_model returns a copy with the same layers (contract); model_quantize "
                                           "replaced by a spy (its own behaviour is property C12)"]))
